@@ -67,7 +67,7 @@ def build_binary():
 
 
 # ------------------------------------------------------------------ harness driver
-def run_cases(cases, deadline_ms=10000, shards=None):
+def run_cases(cases, deadline_ms=10000, shards=None, _confirm=True):
     """Runs cases (list of dicts with unique 'id') through the in-process harness.
     Returns dict id -> result. Hangs are reported as how='timeout', harness crashes
     (abort, stack overflow) as how='abort'."""
@@ -128,6 +128,15 @@ def run_cases(cases, deadline_ms=10000, shards=None):
         missing = [c["id"] for c in cases if c["id"] not in results]
         if missing:
             raise ToolError("harness lost %d cases (first: %r)" % (len(missing), missing[0]))
+        # a deadline miss is confirmed by running the case again on its own with three times the deadline
+        # (a busy machine must not turn into a verdict); batch cases report partial progress and are resumed by
+        # their callers instead
+        if _confirm:
+            late = [c for c in cases if results[c["id"]].get("how") == "timeout" and "done_outs" not in results[c["id"]]]
+            for c in late[:40]:
+                r2 = run_cases([c], deadline_ms=max(30000, 3 * deadline_ms), shards=1, _confirm=False)[c["id"]]
+                r2["confirmed_after_timeout"] = True
+                results[c["id"]] = r2
         return results
     finally:
         shutil.rmtree(d, ignore_errors=True)
